@@ -87,3 +87,23 @@ Print Assumptions to_dict_ignores_discarded_names.
 Example wf_satisfiable : wf (fun s => s) (fun _ => true) w_iso.
 Proof. exact w_iso_wf. Qed.
 Print Assumptions wf_satisfiable.
+
+(* reading never changes the identifier, part 3: the objects an isotherm holds. Generated table (Gen/TablesGen.v holder_methods):
+   for every method of Material and Adsorbate the names it writes on the object and the methods of the class it reaches. No getter
+   (property or plain method; not the constructor, not a property setter) writes - directly or through a helper it calls - the name,
+   the aliases, the property dictionary or an entry of it, i.e. anything material.to_dict() / str(adsorbate) are read from. *)
+Theorem holder_getters_write_no_content :
+  forall c m k w calls a, In (c, m, k, w, calls) holder_methods -> is_getter k = true ->
+  In a (hlookup c (hkey m k) holder_writes) -> ~ In a content_names.
+Proof. exact holder_getters_pure. Qed.
+Print Assumptions holder_getters_write_no_content.
+Example holder_write_table_closed : hstep holder_writes = holder_writes.
+Proof. exact holder_writes_closed. Qed.
+Print Assumptions holder_write_table_closed.
+Example holder_writes_are_seen :
+  hlookup "Material" "set:density" holder_writes = ["properties[]"] /\
+  mem "_state" (hlookup "Adsorbate" "backend" holder_writes) = true /\
+  mem "_state" (hlookup "Adsorbate" "molar_mass" holder_writes) = true /\
+  existsb (fun e : hentry => let '(_, _, k, _, _) := e in is_getter k) holder_methods = true.
+Proof. exact holder_writes_seen. Qed.
+Print Assumptions holder_writes_are_seen.
